@@ -307,7 +307,7 @@ def oracle(p):
         return refuse()
 
 
-LEAN_F = {"to_array", "row_int", "rows", "element", "col_int", "sum", "max", "any", "all", "col_sum", "col_counts", "ravel", "concat", "unary", "scalar", "column", "col_range"}
+LEAN_F = {"to_array", "row_int", "rows", "element", "col_int", "sum", "max", "any", "all", "col_sum", "col_counts", "ravel", "concat", "unary", "scalar", "column", "col_range", "argmax"}
 
 
 def lean_request(p):
@@ -318,7 +318,7 @@ def lean_request(p):
         return None
     if f == "col_int" and p["rsel"]["t"] != "all":
         return None
-    if f in ("col_counts", "ravel", "concat", "max", "col_int", "col_range") and p["cls"] != "ragged":
+    if f in ("col_counts", "ravel", "concat", "max", "col_int", "col_range", "argmax") and p["cls"] != "ragged":
         return None
     inp = p["inp"]
     kind = inp["kind"]
